@@ -147,7 +147,18 @@ func installFileTracer(path string) error {
 }
 
 func init() {
-	if us := os.Getenv("FAKEHDF5_DELAY_US"); us != "" {
+	// FAKEHDF5_DELAY_IF_ARG=<word>: the delay only applies to processes that were started with <word> among their
+	// arguments (e.g. "-writer": slow down ow-sim's writer child process, not the simulation process)
+	delayApplies := true
+	if w := os.Getenv("FAKEHDF5_DELAY_IF_ARG"); w != "" {
+		delayApplies = false
+		for _, a := range os.Args[1:] {
+			if a == w {
+				delayApplies = true
+			}
+		}
+	}
+	if us := os.Getenv("FAKEHDF5_DELAY_US"); us != "" && delayApplies {
 		if n, err := strconv.ParseInt(us, 10, 64); err == nil && n > 0 {
 			SetDelay(time.Duration(n) * time.Microsecond)
 		} else if err != nil {
